@@ -418,20 +418,25 @@ const CROSS_NOTE: &str = "[client runs as uid 65534 (not the owner of the file),
 
 /// `cross`: the client-side steps run in an unprivileged child process (common/privdrop.rs); the daemon-side
 /// steps (and the creation of the pre-existing file) stay with the harness user. Same oracles.
-fn eval_case(i: usize, c: &FileCase, dir: &Path, t: &mut Tally, cross: bool) {
+fn eval_case(i: usize, c: &FileCase, dir: &Path, t: &mut Tally, env: u8) {
+    // env 0: everything in this process; 1: client steps as another, unprivileged user; 2: client steps in a child
+    // process that has no descriptor 0 (the segment will be opened as descriptor 0)
+    let cross = env != 0;
     let path = materialise(c, dir);
     let exp = reference(&c.kind);
-    let note = if cross { CROSS_NOTE } else { "" };
+    let note = match env { 1 => CROSS_NOTE, 2 => "[client process started without a standard input: descriptor 0 is free] ", _ => "" };
     let doc = || {
         let mut d = case_doc(i, c);
-        if cross {
+        if env == 1 {
             d["environment"] = json!("cross-uid");
+        } else if env == 2 {
+            d["environment"] = json!("no-stdin");
         }
         d
     };
     let client = |f: &dyn Fn() -> Value| -> Value {
         if cross {
-            match crate::common::privdrop::run(f) {
+            match crate::common::privdrop::run_opts(f, env == 1, env == 2) {
                 Ok(v) => v,
                 Err(e) => crate::common::report::machinery_failure(&format!("C16 cross-uid phase, {}: {e}", c.label)),
             }
@@ -560,9 +565,9 @@ pub fn run(ctx: &Ctx) -> i32 {
         let doc: Value = serde_json::from_str(&std::fs::read_to_string(p).expect("replay file")).expect("json");
         let i = doc["case"]["case_index"].as_u64().unwrap() as usize;
         let mut t = Tally { n: 0, nontrivial: 0, classes: BTreeMap::new(), counts: BTreeMap::new(), kept: vec![] };
-        let cross = doc["case"]["environment"] == "cross-uid";
-        eval_case(i, &all[i], &base.join("replay"), &mut t, cross);
-        println!("case {i}: {}{}", all[i].label, if cross { " (client steps as uid 65534, no capabilities, RLIMIT_MEMLOCK 0)" } else { "" });
+        let env = if doc["case"]["environment"] == "cross-uid" { 1 } else if doc["case"]["environment"] == "no-stdin" { 2 } else { 0 };
+        eval_case(i, &all[i], &base.join("replay"), &mut t, env);
+        println!("case {i}: {}{}", all[i].label, ["", " (client steps as uid 65534, no capabilities, RLIMIT_MEMLOCK 0)", " (client steps in a process without descriptor 0)"][env as usize]);
         for v in &t.kept {
             println!("  {} :: {}", v.signature, v.text);
         }
@@ -577,9 +582,9 @@ pub fn run(ctx: &Ctx) -> i32 {
     let n_cases = all.len();
     let cross_ok = crate::common::privdrop::is_root();
     let parts = par::fork_reduce_ex(
-        if cross_ok { 2 * n_cases } else { n_cases },
+        if cross_ok { 3 * n_cases } else { 2 * n_cases },
         |c| (Tally { n: 0, nontrivial: 0, classes: BTreeMap::new(), counts: BTreeMap::new(), kept: vec![] }, base.join(format!("p{c}"))),
-        |acc: &mut (Tally, PathBuf), i| eval_case(i % n_cases, &all[i % n_cases], &acc.1, &mut acc.0, i >= n_cases),
+        |acc: &mut (Tally, PathBuf), i| eval_case(i % n_cases, &all[i % n_cases], &acc.1, &mut acc.0, if i < n_cases { 0 } else if i < 2 * n_cases { 2 } else { 1 }),
         |acc| json!({"n": acc.0.n, "nontrivial": acc.0.nontrivial, "classes": acc.0.classes, "counts": acc.0.counts, "kept": acc.0.kept.iter().map(|v| json!({"sig": v.signature, "text": v.text, "replay": v.replay})).collect::<Vec<_>>()}),
     );
     let mut t = Tally { n: 0, nontrivial: 0, classes: BTreeMap::new(), counts: BTreeMap::new(), kept: vec![] };
@@ -619,7 +624,7 @@ pub fn run(ctx: &Ctx) -> i32 {
         ("samples", json!(samples)),
         ("expected_classes", json!(t.classes)),
         ("violation_counts_by_class", json!(t.counts)),
-        ("environments", json!({"same_user": "harness user creates the file, runs the daemon steps and the client steps", "cross_uid": if cross_ok { json!({"every case again with": "client steps in a child process", "client": crate::common::privdrop::describe()}) } else { json!("skipped: the harness is not running as root") }})),
+        ("environments", json!({"same_user": "harness user creates the file, runs the daemon steps and the client steps", "no_stdin": "every case again with the client steps in a child process that has no descriptor 0", "cross_uid": if cross_ok { json!({"every case again with": "client steps in a child process", "client": crate::common::privdrop::describe()}) } else { json!("skipped: the harness is not running as root") }})),
         ("end_to_end_through_the_release_binary", e2e),
         ("exhaustive", json!(true)),
         ("exhaustive_of", json!("the stated structured alphabet (not all byte contents)")),
